@@ -393,6 +393,19 @@ async fn episode(p: &EpParams, case: u64, pass: u64) -> EpReport {
             }
         }
     }
+    // An abandoned pull was served or it was not: what a consumer finds right afterwards (nothing can
+    // have expired or been nacked yet) are first deliveries, in publish order.
+    if matches!(kind, "PullRI" | "PullBlockReady" | "StreamOpen") {
+        if let Ok(ds) = cx.pull(r_sub, 100, true).await {
+            let ids: Vec<u128> = ds.iter().filter_map(|d| d.msg_id.parse::<u128>().ok()).collect();
+            if ids.windows(2).any(|p| p[0] >= p[1]) {
+                let tags: Vec<&str> = ds.iter().map(|d| d.tag.as_str()).collect();
+                rep.viol("C16", format!("C16:order-after-abandoned:{}+{}", kind, setting), format!("after {}: a consumer finds {:?} (message ids {:?}): neither 'served' nor 'never received'", label, tags, ids));
+                rep.viol("C08", "C08:O1:first-delivery-order:after-abandoned-pull", format!("after {}: first deliveries {:?} are not in publish order", label, tags));
+            }
+            rep.inc("order_checked_after_abandoned_pull");
+        }
+    }
     // Everything handed to an abandoned consumer comes back after its deadline (30 s for Modify30: go past it).
     w.advance(Duration::from_secs(45)).await;
     w.settle().await;
